@@ -54,7 +54,7 @@ class Style:
     def __init__(self, ctor=(), parens='full', defsym='=', stmt_sep='\n',
                  ignore_kw='ignore', comments=False, op_breaks=False,
                  indent='', class_sep='\n', start_bare=False, quote='"', trailing_comma=False,
-                 bracket_breaks=False, override_kw=None):
+                 bracket_breaks=False, override_kw=None, upper_flags=False):
         self.ctor = frozenset(ctor)      # node kinds rendered in constructor form
         self.parens = parens             # 'full' | 'min' | 'redundant'
         self.defsym = defsym             # '=' | ':' | '=>'
@@ -69,6 +69,7 @@ class Style:
         self.trailing_comma = trailing_comma      # [a, b,]  T(a, b,)
         self.bracket_breaks = bracket_breaks      # line breaks after [ ( , and before ] )
         self.override_kw = override_kw            # None | 'override' | 'overrides' (rule statements)
+        self.upper_flags = upper_flags            # B"s"  "s"I  B/pat/I  (grammar.txt: [bB]? ... [iI]?)
 
 
 DEFAULT = Style()
@@ -279,18 +280,19 @@ class _R:
         q = st.quote
         if k in st.ctor and k in _CTOR_OK and _ctor_applicable(e):
             return self.ctor(e)
-        if k == 'str':
-            return lit_str(e[1], q)
-        if k == 'bstr':
-            return lit_bytes(e[1], q)
-        if k == 'istr':
-            return lit_str(e[1], q) + 'i'
-        if k == 'bistr':
-            return lit_bytes(e[1], q) + 'i'
-        if k == 're':
-            return lit_regex(e[1]) + ('i' if e[2] else '')
-        if k == 'bre':
-            return 'b' + lit_regex(e[1]) + ('i' if e[2] else '')
+        if k in ('str', 'bstr', 'istr', 'bistr', 're', 'bre'):
+            i, b = ('I', 'B') if st.upper_flags else ('i', 'b')
+            if k == 'str':
+                return lit_str(e[1], q)
+            if k == 'bstr':
+                return b + lit_bytes(e[1], q)[1:]
+            if k == 'istr':
+                return lit_str(e[1], q) + i
+            if k == 'bistr':
+                return b + lit_bytes(e[1], q)[1:] + i
+            if k == 're':
+                return lit_regex(e[1]) + (i if e[2] else '')
+            return b + lit_regex(e[1]) + (i if e[2] else '')
         if k == 'byte':
             return '0x%02X' % e[1]
         if k == 'ref':
